@@ -301,12 +301,17 @@ def probe(k, where=None):
 class M:
     is_async = False
 
-    def __init__(self, k, swallow=False, xraise=False, ret=None):
-        self.k, self.swallow, self.xraise, self.ret = k, swallow, xraise, ret
+    def __init__(self, k, swallow=False, xraise=False, ret=None, falsy=False):
+        self.k, self.swallow, self.xraise, self.ret, self.falsy = k, swallow, xraise, ret, falsy
         self.exit_exc = False
 
     def __repr__(self):
         return "M(%d)" % self.k
+
+    def __bool__(self):
+        # truth-testing is a call into the target's own code: an observer must not do it (C06)
+        S.events.append(("bool", self.k))
+        return not self.falsy
 
     def __enter__(self):
         S.events.append(("enter", self.k))
@@ -337,12 +342,17 @@ class M:
 class AM:
     is_async = True
 
-    def __init__(self, k, swallow=False, xraise=False, ret=None, senter=False, sexit=False):
+    def __init__(self, k, swallow=False, xraise=False, ret=None, senter=False, sexit=False, falsy=False):
         self.k, self.swallow, self.xraise, self.ret, self.senter, self.sexit = k, swallow, xraise, ret, senter, sexit
+        self.falsy = falsy
         self.exit_exc = False
 
     def __repr__(self):
         return "AM(%d)" % self.k
+
+    def __bool__(self):
+        S.events.append(("bool", self.k))
+        return not self.falsy
 
     async def __aenter__(self):
         S.events.append(("aenter", self.k))
@@ -449,6 +459,8 @@ class R:
             args.append("swallow=True")
         if it.get("xraise"):
             args.append("xraise=True")
+        if it.get("falsy"):
+            args.append("falsy=True")
         if ret:
             args.append("ret=%s" % ret)
         if is_async:
